@@ -176,7 +176,18 @@ func (nc *nilCtx) mayBeNil0(v ssa.Value) bool {
 			}
 			return false
 		case *ssa.IndexAddr:
-			// element of a slice of pointers
+			// element of a slice of pointers made with make([]*T, n): nil wherever an iteration can skip the assignment
+			if !isPtrLike(x.Type()) {
+				return false
+			}
+			for l := range nc.vf.objLabels(a.X, 0) {
+				if !strings.HasSuffix(l, "@make") {
+					continue
+				}
+				if why := nc.sparseMake(l); why != "" {
+					return nc.note(v, why)
+				}
+			}
 			return false
 		}
 		return false
@@ -507,6 +518,7 @@ func checkC09(cx *Ctx, r *Report) {
 	}
 	r.Ok("R-PANIC", "scan", "", fmt.Sprintf("%d functions scanned for panic/Fatal/Exit/Must*", len(fns)))
 	cx.checkHashAvailability(r, w.Funcs)
+	cx.checkHTTPStatus(r, vf, fns)
 
 	// --- R-BCE ---------------------------------------------------------------------------------------
 	cx.checkBCE(r, vf.scope)
@@ -961,4 +973,119 @@ func (cx *Ctx) assertFromTypedContainer(vf *VFlow, ta *ssa.TypeAssert) bool {
 		}
 	}
 	return true
+}
+
+// sparseMake: the slice labelled l was made with a non-zero length and an iteration of the filling loop can skip
+// the element store (a `continue`, a conditional store): some elements stay nil.
+func (nc *nilCtx) sparseMake(l string) string {
+	w := nc.cx.W
+	for fn := range nc.vf.scope {
+		for _, b := range fn.Blocks {
+			for _, in := range b.Instrs {
+				ms, ok := in.(*ssa.MakeSlice)
+				if !ok {
+					continue
+				}
+				if _, has := nc.vf.objLabels(ms, 0)[l]; !has {
+					continue
+				}
+				if n, isC := constInt(ms.Len); isC && n == 0 {
+					continue // filled by append: no holes
+				}
+				fi := nc.cx.Fx.info(fn)
+				nStores := 0
+				for _, st := range fi.stores {
+					ia, ok := st.Addr.(*ssa.IndexAddr)
+					if !ok {
+						continue
+					}
+					if _, has := nc.vf.objLabels(ia.X, 0)[l]; !has {
+						continue
+					}
+					nStores++
+					S := st.Block()
+					if !fi.reachable(S, S) {
+						continue
+					}
+					for _, B := range fn.Blocks {
+						if B == S || !fi.reachable(S, B) || !fi.reachable(B, S) {
+							continue
+						}
+						if reachAvoidingBlock(B, B, S) {
+							return "element of a slice made with a fixed length in " + w.FuncKey(fn) + " whose filling loop can skip an element (" + w.InstrPos(st) + ")"
+						}
+					}
+				}
+				if nStores == 0 {
+					return "element of a slice made with a fixed length in " + w.FuncKey(fn) + " that is never filled"
+				}
+			}
+		}
+	}
+	return ""
+}
+
+// reachAvoidingBlock: can `to` be reached from `from` (one or more edges) without entering block avoid?
+func reachAvoidingBlock(from, to, avoid *ssa.BasicBlock) bool {
+	seen := map[*ssa.BasicBlock]bool{}
+	var dfs func(x *ssa.BasicBlock) bool
+	dfs = func(x *ssa.BasicBlock) bool {
+		for _, s := range x.Succs {
+			if s == avoid {
+				continue
+			}
+			if s == to {
+				return true
+			}
+			if !seen[s] {
+				seen[s] = true
+				if dfs(s) {
+					return true
+				}
+			}
+		}
+		return false
+	}
+	return dfs(from)
+}
+
+// checkHTTPStatus: every status code handed to http.Error / WriteHeader / http.Redirect is a constant in [100, 999]
+// (net/http panics on anything else, e.g. a status variable that was never assigned).
+func (cx *Ctx) checkHTTPStatus(r *Report, vf *VFlow, fns []*ssa.Function) {
+	w := cx.W
+	n := 0
+	for _, fn := range fns {
+		for _, c := range callsIn(fn) {
+			idx := -1
+			switch calleeName(c) {
+			case "net/http.Error":
+				idx = 2
+			case "net/http.Redirect":
+				idx = 3
+			default:
+				if c.Common().IsInvoke() && c.Common().Method.Name() == "WriteHeader" && isResponseWriter(c.Common().Value.Type()) {
+					idx = 0
+				}
+			}
+			if idx < 0 || idx >= len(c.Common().Args) {
+				continue
+			}
+			n++
+			bad := ""
+			for _, l := range vf.Labels(c.Common().Args[idx]).leaves() {
+				if !strings.HasPrefix(l, "const:") {
+					bad = "the status code comes from " + l
+					continue
+				}
+				var code int
+				if _, err := fmt.Sscanf(strings.TrimPrefix(l, "const:"), "%d", &code); err != nil || code < 100 || code > 999 {
+					bad = "the status code can be " + strings.TrimPrefix(l, "const:")
+				}
+			}
+			r.Check(bad == "", "R-STATUS", w.FuncKey(fn)+":"+shortCallee(calleeName(c))+"@"+w.InstrPos(c), w.InstrPos(c), "constant status code in [100, 999]", bad+": net/http panics on an invalid status code")
+		}
+	}
+	if n < 10 {
+		r.Fail("R-STATUS", "#status-sites", "", fmt.Sprintf("only %d status-code sites found", n))
+	}
 }
